@@ -115,7 +115,7 @@ def job_time(m, method):
             out.append(('no emission on this path', Not(some)))
         le = w[fields.index('last_emit')]
         out.append(('last_emit becomes the trigger time at an emission and is unchanged otherwise',
-                    And(Implies(some, And(le.disc == 1, le.fields['Some'][0] == tn)), Implies(Not(some), And((le.disc == 1) == has_last, Implies(has_last, le.fields['Some'][0] == last))))))
+                    And(Implies(some, And(le.disc == 1, (le.fields.get('Some') or [BitVecVal(0, 64)])[0] == tn)), Implies(Not(some), And((le.disc == 1) == has_last, Implies(has_last, (le.fields.get('Some') or [BitVecVal(0, 64)])[0] == last))))))
         return out
     return ex, results, post, {'size': size, 'slide': slide, 'tnew': tn, 'last': last}
 
